@@ -166,6 +166,16 @@ def faults(a):
                        lambda x, sn=sn, r=r: x.sensor_models[sn].__setitem__(r, x.sensor_models[sn][r] + ct[0]))
             yield (f"sensor:depends-on-undeclared:{sn}:{r}", SM, "sensor-depends-on-undeclared",
                    lambda x, sn=sn, r=r: x.sensor_models[sn].__setitem__(r, x.sensor_models[sn][r] + FRESH))
+            # two foreign symbols in the same reading
+            FRESH2 = sympy.Symbol("undeclared_p")
+            yield (f"sensor:depends-on-two-undeclared:{sn}:{r}", SM, "sensor-depends-on-undeclared",
+                   lambda x, sn=sn, r=r, F2=FRESH2: x.sensor_models[sn].__setitem__(r, x.sensor_models[sn][r] + FRESH * F2))
+            if ct:
+                yield (f"sensor:depends-on-control-and-undeclared:{sn}:{r}", SM, "sensor-depends-on-control",
+                       lambda x, sn=sn, r=r: x.sensor_models[sn].__setitem__(r, x.sensor_models[sn][r] + ct[0] + FRESH))
+            if len(ct) >= 2:
+                yield (f"sensor:depends-on-two-controls:{sn}:{r}", SM, "sensor-depends-on-control",
+                       lambda x, sn=sn, r=r: x.sensor_models[sn].__setitem__(r, x.sensor_models[sn][r] + ct[0] * ct[1]))
             yield (f"snoise:reading-missing:{sn}:{r}", SN, "snoise-reading-missing",
                    lambda x, sn=sn, r=r: x.sensor_noises[sn].pop(r))
 
